@@ -23,6 +23,7 @@ func (w *World) installSlashHooks() {
 	plans := map[string]*downPlan{}
 	hostileBudget := map[string]int{}
 	everJailed := map[string]bool{}
+	neverIssuedSent := false
 	w.consumerExtra = func(l *Link) ([]TxSpec, *BlockOpts) {
 		c := l.C
 		ci := w.Shadow.ByID[l.CID]
@@ -63,7 +64,13 @@ func (w *World) installSlashHooks() {
 		// hostile packets
 		if w.Cfg.Hostile && hostileBudget[l.CID] < 12 && w.Rnd.Intn(7) == 0 {
 			hostileBudget[l.CID]++
-			w.injectHostileSlash(l)
+			w.injectHostileSlash(l, false)
+		}
+		// every hostile world sends at least one report with an update id the provider never issued (answered with an error
+		// acknowledgement that carries the packet); late, because the consumer closes its channel end when it sees that answer
+		if w.Cfg.Hostile && !neverIssuedSent && w.Step >= w.Cfg.Steps*3/4 {
+			neverIssuedSent = true
+			w.injectHostileSlash(l, true)
 		}
 		return nil, opts
 	}
@@ -85,7 +92,7 @@ func (w *World) keyName(addr []byte) string {
 }
 
 // injectHostileSlash appends a crafted slash packet to the consumer's pending queue (a modified consumer binary).
-func (w *World) injectHostileSlash(l *Link) {
+func (w *World) injectHostileSlash(l *Link, forceNeverIssued bool) {
 	pk := w.P.PApp.ProviderKeeper
 	pctx := w.P.Ctx()
 	var addr []byte
@@ -197,6 +204,9 @@ func (w *World) injectHostileSlash(l *Link) {
 		vsc, vk = cur, "current"
 	default:
 		vsc, vk = 1+uint64(w.Rnd.Int63n(int64(cur))), "old"
+	}
+	if forceNeverIssued {
+		vsc, vk = cur+1000, "never-issued"
 	}
 	inf := stakingtypes.Infraction_INFRACTION_DOWNTIME
 	if w.Rnd.Intn(4) == 0 || (vk == "never-issued" && w.Rnd.Intn(2) == 0) {
